@@ -1,8 +1,17 @@
 //! Property workloads that need the format crates (IPC, Flight, Parquet, CSV, JSON, Avro).
 use vcore::mon::Ctx;
 
-pub fn run(id: &str, _ctx: &mut Ctx) -> bool {
+pub mod c04;
+pub mod c04gen;
+pub mod c04probe;
+pub mod c05;
+pub mod pq_common;
+
+pub fn run(id: &str, ctx: &mut Ctx) -> bool {
     match id {
-        _ => false,
+        "C04" => c04::run(ctx),
+        "C05" => c05::run(ctx),
+        _ => return false,
     }
+    true
 }
